@@ -2,7 +2,7 @@
    exactly when triggered; skip propagation; input = merge of the routed data predecessors.
    Only statements: each theorem is proved in Proofs/Dag*.v about the definitions of Model/Graph.v that
    Corr/C02.v evaluates (dag_report_values / dag_report_deps / dag_report_skip / dag_get, run_flat / run). *)
-From Eino Require Import Base.Util Model.Graph Model.DagValidate Proofs.DagChan Proofs.DagInv Proofs.DagLoop Proofs.DagTrig Proofs.DagTrigLoop Proofs.DagValidate Proofs.DagLegacy Proofs.DagExamples.
+From Eino Require Import Base.Util Model.Graph Model.DagValidate Proofs.DagChan Proofs.DagInv Proofs.DagLoop Proofs.DagTrig Proofs.DagVals Proofs.DagSkip Proofs.DagTrigLoop Proofs.DagDen Proofs.DagValidate Proofs.DagFuel Proofs.DagLegacy Proofs.DagExamples.
 Open Scope N_scope.
 
 (* ================= channel level (compose/dag.go) ================= *)
@@ -102,10 +102,12 @@ Proof. vm_compute. auto. Qed.
      routed_c Rv q t       q was resolved with an output for which it routes control to t: t is a direct
                            control successor of q or was selected by one of q's branches.
    All statements hold for batch and eager (Workflow) mode, every schedule, every behaviour of node bodies,
-   branch tables and nested graphs; the only assumption on the graph is that node keys are distinct. *)
+   branch tables and nested graphs; the assumptions on the graph are that node keys are distinct and
+   api_built g: a control edge parallel to a data-carrying branch end is a data edge too (true of everything
+   the public API builds: Graph.AddEdge is always data + control, Workflow branches carry no data). *)
 
 Theorem dag_runs_iff_triggered : forall V St (ops : vops V) g,
-  g_mode g = Dag -> NoDup (map n_key (g_nodes g)) ->
+  g_mode g = Dag -> NoDup (map n_key (g_nodes g)) -> api_built g ->
   forall exec sub sched p,
   (forall i k v s, Forall (fun e : logentry V => fst e <> p) (outcome_log V (fst (sub i (p ++ [k]) v s)))) ->
   forall x s0 ls Rv t,
@@ -116,7 +118,7 @@ Print Assumptions dag_runs_iff_triggered.
 
 (* ... and then at least one control predecessor actually routed to it *)
 Theorem dag_routed_when_run : forall V St (ops : vops V) g,
-  g_mode g = Dag -> NoDup (map n_key (g_nodes g)) ->
+  g_mode g = Dag -> NoDup (map n_key (g_nodes g)) -> api_built g ->
   forall exec sub sched p,
   (forall i k v s, Forall (fun e : logentry V => fst e <> p) (outcome_log V (fst (sub i (p ++ [k]) v s)))) ->
   forall x s0 ls Rv t,
@@ -128,7 +130,7 @@ Print Assumptions dag_routed_when_run.
 
 (* otherwise it is skipped: all control predecessors finished or skipped and none routed to it *)
 Theorem dag_skipped_when_none_routed : forall V St (ops : vops V) g,
-  g_mode g = Dag -> NoDup (map n_key (g_nodes g)) ->
+  g_mode g = Dag -> NoDup (map n_key (g_nodes g)) -> api_built g ->
   forall exec sub sched p,
   (forall i k v s, Forall (fun e : logentry V => fst e <> p) (outcome_log V (fst (sub i (p ++ [k]) v s)))) ->
   forall x s0 ls Rv t c,
@@ -140,9 +142,48 @@ Theorem dag_skipped_when_none_routed : forall V St (ops : vops V) g,
 Proof. exact skipped_when_none_routed. Qed.
 Print Assumptions dag_skipped_when_none_routed.
 
+(* ... and only then (with /repo 665541a a direct control successor is never reported as skipped): once all
+   control predecessors are finished or skipped, the node is skipped EXACTLY WHEN none of them routed to it *)
+Theorem dag_skipped_iff_none_routed : forall V St (ops : vops V) g,
+  g_mode g = Dag -> NoDup (map n_key (g_nodes g)) -> api_built g ->
+  forall exec sub sched p,
+  (forall i k v s, Forall (fun e : logentry V => fst e <> p) (outcome_log V (fst (sub i (p ++ [k]) v s)))) ->
+  forall x s0 ls Rv t c,
+  reach V St ops g exec sub sched p x s0 ls Rv ->
+  alookup t (ls_chans V St ls) = Some c -> cpreds g t <> [] ->
+  (forall q, In q (cpreds g t) -> resolved V Rv q \/ skipped V (ls_chans V St ls) q) ->
+  (c_skipped V c = true <-> forall q, In q (cpreds g t) -> ~ routed_c V ops g Rv q t).
+Proof. exact skipped_iff_none_routed. Qed.
+Print Assumptions dag_skipped_iff_none_routed.
+
+(* soundness of a skip at any time: a skipped node was routed to by none of its control predecessors *)
+Theorem dag_skipped_none_routed : forall V St (ops : vops V) g,
+  g_mode g = Dag -> NoDup (map n_key (g_nodes g)) -> api_built g ->
+  forall exec sub sched p,
+  (forall i k v s, Forall (fun e : logentry V => fst e <> p) (outcome_log V (fst (sub i (p ++ [k]) v s)))) ->
+  forall x s0 ls Rv t c,
+  reach V St ops g exec sub sched p x s0 ls Rv ->
+  alookup t (ls_chans V St ls) = Some c -> c_skipped V c = true -> cpreds g t <> [] ->
+  forall q, In q (cpreds g t) -> ~ routed_c V ops g Rv q t.
+Proof. exact skipped_none_routed. Qed.
+Print Assumptions dag_skipped_none_routed.
+
+(* a skipped node without control predecessors (only data-only inputs) has no predecessor at all or a skipped
+   data predecessor *)
+Theorem dag_skipped_data_only : forall V St (ops : vops V) g,
+  g_mode g = Dag -> NoDup (map n_key (g_nodes g)) -> api_built g ->
+  forall exec sub sched p,
+  (forall i k v s, Forall (fun e : logentry V => fst e <> p) (outcome_log V (fst (sub i (p ++ [k]) v s)))) ->
+  forall x s0 ls Rv t c,
+  reach V St ops g exec sub sched p x s0 ls Rv ->
+  alookup t (ls_chans V St ls) = Some c -> c_skipped V c = true -> cpreds g t = [] ->
+  dpreds g t = [] \/ exists q, In q (dpreds g t) /\ skipped V (ls_chans V St ls) q.
+Proof. exact skipped_data_only. Qed.
+Print Assumptions dag_skipped_data_only.
+
 (* the skip propagates to the successors: all control predecessors skipped => skipped *)
 Theorem dag_skip_propagates : forall V St (ops : vops V) g,
-  g_mode g = Dag -> NoDup (map n_key (g_nodes g)) ->
+  g_mode g = Dag -> NoDup (map n_key (g_nodes g)) -> api_built g ->
   forall exec sub sched p,
   (forall i k v s, Forall (fun e : logentry V => fst e <> p) (outcome_log V (fst (sub i (p ++ [k]) v s)))) ->
   forall x s0 ls Rv t c,
@@ -154,7 +195,7 @@ Proof. exact skip_propagates. Qed.
 Print Assumptions dag_skip_propagates.
 
 Theorem dag_skipped_never_runs : forall V St (ops : vops V) g,
-  g_mode g = Dag -> NoDup (map n_key (g_nodes g)) ->
+  g_mode g = Dag -> NoDup (map n_key (g_nodes g)) -> api_built g ->
   forall exec sub sched p,
   (forall i k v s, Forall (fun e : logentry V => fst e <> p) (outcome_log V (fst (sub i (p ++ [k]) v s)))) ->
   forall x s0 ls Rv t,
@@ -165,7 +206,7 @@ Print Assumptions dag_skipped_never_runs.
 
 (* F-C02 (fixed in /repo 91b08ee): a node that no edge or branch leads to is skipped from the start *)
 Theorem dag_orphan_skipped : forall V St (ops : vops V) g,
-  g_mode g = Dag -> NoDup (map n_key (g_nodes g)) ->
+  g_mode g = Dag -> NoDup (map n_key (g_nodes g)) -> api_built g ->
   forall exec sub sched p,
   (forall i k v s, Forall (fun e : logentry V => fst e <> p) (outcome_log V (fst (sub i (p ++ [k]) v s)))) ->
   forall x s0 ls Rv t c,
@@ -195,7 +236,7 @@ Example reach_nonvacuous :
     /\ skipped value (ls_chans value unit ls) 3
     /\ triggered value unit ex_dag ls Rv 5
     /\ akeys Rv = [kSTART; 2; 4]
-    /\ NoDup (map n_key (g_nodes ex_dag)).
+    /\ NoDup (map n_key (g_nodes ex_dag)) /\ api_built ex_dag.
 Proof.
   eexists _, _. split.
   - eapply reach_step; [eapply reach_step; [eapply reach_init|]|]; vm_compute; reflexivity.
@@ -206,8 +247,191 @@ Proof.
       intros q [Hq|Hq]; vm_compute in Hq.
       * destruct Hq as [<-|[<-|[]]]; [right; eexists; split; vm_compute; reflexivity|left; vm_compute; tauto].
       * destruct Hq as [<-|[<-|[]]]; [right; eexists; split; vm_compute; reflexivity|left; vm_compute; tauto].
-    + split; [vm_compute; reflexivity|]. vm_compute. repeat constructor; simpl; intuition discriminate.
+    + split; [vm_compute; reflexivity|]. split; [vm_compute; repeat constructor; simpl; intuition discriminate|].
+      intros n t Hn Hc _. simpl in Hn.
+      repeat (destruct Hn as [<-|Hn]; [exact Hc|]). destruct Hn.
 Qed.
+
+(* ---------------------------------------------------------------------------------------------------
+   The input of a node is the merge of exactly the routed data predecessors; the result is END's input.
+   Vocabulary (Proofs/DagVals.v):
+     val_spec Rv t p v     p is a declared data predecessor of t, was resolved with an output out for which it
+                           routes data to t (data edge, or selected by one of its branches), and v is that
+                           output as it travels over the edge p -> t (ToField mapping applied: edge_value)
+     input_spec Rv t w     w = pre_node t (merge of vals) where vals is the key-sorted list holding exactly the
+                           pairs (p, v) with val_spec Rv t p v; get_merge: no value -> the zero value, one value
+                           -> itself, several -> mergeValues; pre_node: the field-mapping converter of t *)
+Theorem dag_input_is_merge_of_routed : forall V St (ops : vops V) g,
+  g_mode g = Dag -> NoDup (map n_key (g_nodes g)) -> api_built g ->
+  forall exec sub sched p,
+  (forall i k v s, Forall (fun e : logentry V => fst e <> p) (outcome_log V (fst (sub i (p ++ [k]) v s)))) ->
+  forall x s0 ls Rv t w,
+  reach V St ops g exec sub sched p x s0 ls Rv ->
+  alookup t (ls_next V St ls) = Some w -> input_spec V ops g Rv t w.
+Proof. exact scheduled_input. Qed.
+Print Assumptions dag_input_is_merge_of_routed.
+
+(* the same for every execution recorded in the log, with respect to the tasks resolved when it was scheduled *)
+Theorem dag_executed_input_is_merge_of_routed : forall V St (ops : vops V) g,
+  g_mode g = Dag -> NoDup (map n_key (g_nodes g)) -> api_built g ->
+  forall exec sub sched p,
+  (forall i k v s, Forall (fun e : logentry V => fst e <> p) (outcome_log V (fst (sub i (p ++ [k]) v s)))) ->
+  forall x s0 ls Rv,
+  reach V St ops g exec sub sched p x s0 ls Rv ->
+  forall t w, In (p ++ [t], w) (own_events V p (ls_log V St ls)) ->
+  exists Rv' more, Rv = Rv' ++ more /\ input_spec V ops g Rv' t w.
+Proof. exact executed_input. Qed.
+Print Assumptions dag_executed_input_is_merge_of_routed.
+
+(* the value assembled for END is the result of the run *)
+Theorem dag_result_is_end_merge : forall V St (ops : vops V) g,
+  g_mode g = Dag -> NoDup (map n_key (g_nodes g)) -> api_built g ->
+  forall exec sub sched p,
+  (forall i k v s, Forall (fun e : logentry V => fst e <> p) (outcome_log V (fst (sub i (p ++ [k]) v s)))) ->
+  forall x s0 ls Rv v lg s',
+  reach V St ops g exec sub sched p x s0 ls Rv ->
+  step V St ops exec sub sched p g ls = Finish (Done v lg) s' ->
+  input_spec V ops g (Rv ++ step_outputs V St ops g exec sub sched p ls) kEND v.
+Proof. exact done_result. Qed.
+Print Assumptions dag_result_is_end_merge.
+
+(* non-vacuity: in the state of reach_nonvacuous node 5 is scheduled with the output of 4 alone (3 is skipped),
+   and two iterations later the run is Done with the output of 7 *)
+Example input_nonvacuous :
+  exists ls Rv, reach value unit tree_ops ex_dag (tree_exec []) ex_nosub sched_first [] ex_input_c tt ls Rv
+    /\ alookup 5 (ls_next value unit ls) = Some (VMap [(4, VMap [(2, ex_input_c)])])
+    /\ In ([] ++ [4], VMap [(2, ex_input_c)]) (own_events value [] (ls_log value unit ls)).
+Proof.
+  eexists _, _. split.
+  - eapply reach_step; [eapply reach_step; [eapply reach_init|]|]; vm_compute; reflexivity.
+  - split; [vm_compute; reflexivity|vm_compute; tauto].
+Qed.
+
+Example result_nonvacuous :
+  exists ls Rv v lg, reach value unit tree_ops ex_dag (tree_exec []) ex_nosub sched_first [] ex_input_c tt ls Rv
+    /\ step value unit tree_ops (tree_exec []) ex_nosub sched_first [] ex_dag ls = Finish (Done v lg) tt
+    /\ v = VMap [(7, VMap [(5, VMap [(4, VMap [(2, ex_input_c)])]); (6, VMap [(4, VMap [(2, ex_input_c)])])])].
+Proof.
+  eexists _, _, _, _. split.
+  - eapply reach_step; [eapply reach_step; [eapply reach_step; [eapply reach_init|]|]|]; vm_compute; reflexivity.
+  - split; vm_compute; reflexivity.
+Qed.
+
+(* ---------------------------------------------------------------------------------------------------
+   Denotation and schedule independence (Proofs/DagDen.v).
+   DF cs Rv: the table "who was resolved with which output (Rv), who is skipped (cs)" satisfies the local rules
+   of the property read as a definition by recursion on a topological order:
+     START is resolved with the input x; a resolved node k had every predecessor resolved or skipped, a control
+     predecessor that routed to it (without control predecessors: no skipped data predecessor), received the
+     merge of the outputs of the data predecessors that routed to it (EF / input_spec) and produced nout k of
+     that input; a skipped node with control predecessors has each of them skipped or resolved with the node in
+     its skipped list; a skipped node without control predecessors has no predecessor or a skipped data one.
+   nout n v is what executing node n on input v yields: the theorems assume the node bodies and nested graphs
+   are functions of their input (run_task ... = nout n v for every state); rank is a topological rank of ALL
+   dependencies (control and data; rank_ok is a checkable sufficient condition). *)
+
+(* every state the loop reaches carries a table satisfying these rules ... *)
+Theorem dag_run_satisfies_den : forall V St (ops : vops V) g,
+  g_mode g = Dag -> NoDup (map n_key (g_nodes g)) -> api_built g ->
+  forall (nout : node -> V -> tres V) x exec sub sched p,
+  (forall i k v s, Forall (fun e : logentry V => fst e <> p) (outcome_log V (fst (sub i (p ++ [k]) v s)))) ->
+  (forall n v s, fst (fst (run_task V St ops exec sub p n v s)) = nout n v) ->
+  forall s0 ls Rv,
+  reach V St ops g exec sub sched p x s0 ls Rv -> DF V ops g nout x (ls_chans V St ls) Rv.
+Proof. exact reach_DF. Qed.
+Print Assumptions dag_run_satisfies_den.
+
+(* ... and the rules determine the table: two tables agree wherever they overlap (dag_result_is_den: the
+   denotation is a function, by induction along the topological rank) *)
+Theorem dag_den_unique : forall V (ops : vops V) g (nout : node -> V -> tres V) x (rank : key -> nat),
+  (forall t q, gpred g t q -> (rank q < rank t)%nat) ->
+  forall csA csB RvA RvB,
+  DF V ops g nout x csA RvA -> DF V ops g nout x csB RvB ->
+  forall k, agree V csA csB RvA RvB k.
+Proof. exact den_deterministic. Qed.
+Print Assumptions dag_den_unique.
+
+(* dag_eager_schedule_independent: two runs under ANY two schedules (batch or eager, any completion order,
+   different state types): a node resolved in both produced the same output, none is resolved in one and
+   skipped in the other ... *)
+Theorem dag_schedule_independent : forall V (ops : vops V) g,
+  g_mode g = Dag -> NoDup (map n_key (g_nodes g)) -> api_built g ->
+  forall (nout : node -> V -> tres V) x (rank : key -> nat),
+  (forall t q, gpred g t q -> (rank q < rank t)%nat) ->
+  forall p StA StB execA subA schedA execB subB schedB,
+  (forall i k v s, Forall (fun e : logentry V => fst e <> p) (outcome_log V (fst (subA i (p ++ [k]) v s)))) ->
+  (forall i k v s, Forall (fun e : logentry V => fst e <> p) (outcome_log V (fst (subB i (p ++ [k]) v s)))) ->
+  (forall n v s, fst (fst (run_task V StA ops execA subA p n v s)) = nout n v) ->
+  (forall n v s, fst (fst (run_task V StB ops execB subB p n v s)) = nout n v) ->
+  forall sA sB lsA RvA lsB RvB,
+  reach V StA ops g execA subA schedA p x sA lsA RvA ->
+  reach V StB ops g execB subB schedB p x sB lsB RvB ->
+  forall k, (forall oA oB, In (k, oA) RvA -> In (k, oB) RvB -> oA = oB)
+            /\ (In k (akeys RvA) -> ~ skipped V (ls_chans V StB lsB) k)
+            /\ (In k (akeys RvB) -> ~ skipped V (ls_chans V StA lsA) k).
+Proof. exact reach_agree. Qed.
+Print Assumptions dag_schedule_independent.
+
+(* ... and if both runs finish, they return the same result *)
+Theorem dag_result_schedule_independent : forall V (ops : vops V) g,
+  g_mode g = Dag -> NoDup (map n_key (g_nodes g)) -> api_built g ->
+  forall (nout : node -> V -> tres V) x (rank : key -> nat),
+  (forall t q, gpred g t q -> (rank q < rank t)%nat) ->
+  forall p StA StB execA subA schedA execB subB schedB,
+  (forall i k v s, Forall (fun e : logentry V => fst e <> p) (outcome_log V (fst (subA i (p ++ [k]) v s)))) ->
+  (forall i k v s, Forall (fun e : logentry V => fst e <> p) (outcome_log V (fst (subB i (p ++ [k]) v s)))) ->
+  (forall n v s, fst (fst (run_task V StA ops execA subA p n v s)) = nout n v) ->
+  (forall n v s, fst (fst (run_task V StB ops execB subB p n v s)) = nout n v) ->
+  forall sA sB lsA RvA lsB RvB vA lgA sA' vB lgB sB',
+  (exists q, gpred g kEND q) ->
+  reach V StA ops g execA subA schedA p x sA lsA RvA ->
+  step V StA ops execA subA schedA p g lsA = Finish (Done vA lgA) sA' ->
+  reach V StB ops g execB subB schedB p x sB lsB RvB ->
+  step V StB ops execB subB schedB p g lsB = Finish (Done vB lgB) sB' ->
+  vA = vB.
+Proof. exact done_agree. Qed.
+Print Assumptions dag_result_schedule_independent.
+
+(* non-vacuity: the Workflow ex_wf under "first running task completes first" and "last completes first":
+   the hypotheses hold (pure nodes, rank, END has a predecessor) and both runs finish *)
+Definition ex_nout (n : node) (v : value) : tres value :=
+  fst (fst (run_task value unit tree_ops (tree_exec []) ex_nosub [] n v tt)).
+Example schedule_independent_nonvacuous :
+  (forall n v s, fst (fst (run_task value unit tree_ops (tree_exec []) ex_nosub [] n v s)) = ex_nout n v)
+  /\ (forall t q, gpred ex_wf t q -> (ex_rank q < ex_rank t)%nat)
+  /\ (exists q, gpred ex_wf kEND q)
+  /\ (exists lsA RvA vA lgA, reach value unit tree_ops ex_wf (tree_exec []) ex_nosub sched_first [] ex_input_c tt lsA RvA
+        /\ step value unit tree_ops (tree_exec []) ex_nosub sched_first [] ex_wf lsA = Finish (Done vA lgA) tt)
+  /\ (exists lsB RvB vB lgB, reach value unit tree_ops ex_wf (tree_exec []) ex_nosub sched_lastE [] ex_input_c tt lsB RvB
+        /\ step value unit tree_ops (tree_exec []) ex_nosub sched_lastE [] ex_wf lsB = Finish (Done vB lgB) tt
+        /\ akeys RvB = [kSTART; 2; 4; 6; 5]).
+Proof.
+  split; [intros n v []; reflexivity|]. split; [apply rank_ok_sound; vm_compute; reflexivity|].
+  split; [exists 7; left; vm_compute; tauto|]. split.
+  - eexists _, _, _, _. split.
+    + eapply reach_step; [eapply reach_step; [eapply reach_step; [eapply reach_step; [eapply reach_init|]|]|]|]; vm_compute; reflexivity.
+    + vm_compute. reflexivity.
+  - eexists _, _, _, _. split; [|split].
+    + eapply reach_step; [eapply reach_step; [eapply reach_step; [eapply reach_step; [eapply reach_init|]|]|]|]; vm_compute; reflexivity.
+    + vm_compute. reflexivity.
+    + vm_compute. reflexivity.
+Qed.
+
+(* ---------------------------------------------------------------------------------------------------
+   The fuel of the model never runs out. The Go code has no bound on the `for step` loop in DAG mode nor on the
+   work list of reportBranch; the model gives them |nodes|+2 and |nodes|+1 units of fuel and reports
+   exhaustion as the distinguished error eLoopFuel. That error is never the outcome of a run (so the
+   second alternative of dag_outcome_from_reachable_state never happens, and the model cuts no behaviour). *)
+Theorem dag_fuel_never_exhausted : forall V St (ops : vops V) exec sched F fuel p g x s,
+  g_mode g = Dag -> (forall vals, v_merge ops vals <> Err eLoopFuel) ->
+  forall l, fst (run_nest V St ops exec sched (S fuel) F p g x s) <> Fail [mkerr eLoopFuel] l.
+Proof. exact dag_fuel_nest. Qed.
+Print Assumptions dag_fuel_never_exhausted.
+
+(* its hypothesis holds for the value type of the harness *)
+Theorem tree_merge_class : forall vals, v_merge tree_ops vals <> Err eLoopFuel.
+Proof. exact tree_merge_not_fuel. Qed.
+Print Assumptions tree_merge_class.
 
 (* ---------------------------------------------------------------------------------------------------
    Cycle rejection (compose/graph.go validateDAG, modelled in Model/DagValidate.v and tied to Compile by
@@ -220,6 +444,15 @@ Theorem validateDAG_sound : forall g,
                 (rank (n_key n) < rank (n_key m))%nat.
 Proof. exact validate_dag_sound. Qed.
 Print Assumptions validateDAG_sound.
+
+(* ... and exactly those: validate_dag decides acyclicity of the control dependencies *)
+Theorem validateDAG_iff_acyclic : forall g,
+  validate_dag g = true <->
+  exists rank : key -> nat,
+    forall n m, In n (real_nodes g) -> In m (real_nodes g) -> is_cpred n (n_key m) = true ->
+                (rank (n_key n) < rank (n_key m))%nat.
+Proof. exact validate_dag_iff. Qed.
+Print Assumptions validateDAG_iff_acyclic.
 
 Example validateDAG_nonvacuous :
   validate_dag ex_dag = true /\ validate_dag (skip_chain 12) = true
